@@ -290,7 +290,8 @@ def check(chk):
     chk.ob("DOM-37", "the JSON form carries all parameters", ok, enc.where(), construct=enc.ident, text="json body")
     # the JSON form carries every value the decoder accepts back: no option of the dump narrows it (json.loads reads NaN / Infinity, so the
     # dump must not refuse them; nothing is skipped or replaced by a fallback)
-    NARROWING = {"allow_nan", "skipkeys", "default", "check_circular"}
+    # (ensure_ascii=False puts raw code points on the line: the sender's utf-8 encode then refuses a lone surrogate that the escaped form carries)
+    NARROWING = {"allow_nan", "skipkeys", "default", "check_circular", "ensure_ascii"}
     for n in jd:
         for c in [x for x in ast.walk(n.ast.value) if isinstance(x, ast.Call) and call_attr(x) == "dumps"]:
             kws = {k_.arg: src(k_.value) for k_ in c.keywords}
@@ -700,6 +701,7 @@ def battery():
         M("decoder accepts the None tag only for some names", BS, "        elif value == 'NoneType:':\n            kwargs[name] = None", "        elif value == 'NoneType:' and name != 'value':\n            kwargs[name] = None", "TABLE-9"),
         M("decoder drops parameters named like an earlier prefix", BS, "        if name in kwargs:\n            continue", "        if name in kwargs or name.startswith('_'):\n            continue", "TABLE-9"),
         M("only the last parameter is sent", BS, "        kwarg_string += '{}={}&'.format(quote(k, ''),", "        kwarg_string = '{}={}&'.format(quote(k, ''),", "LAYER-1"),
+        M("JSON form leaves non-ASCII text unescaped", BS, "json.dumps(kwargs, cls=MpfJSONEncoder)", "json.dumps(kwargs, cls=MpfJSONEncoder, ensure_ascii=False)", "DOM-37"),
         M("JSON form refuses non-finite floats", BS, "json.dumps(kwargs, cls=MpfJSONEncoder)", "json.dumps(kwargs, cls=MpfJSONEncoder, allow_nan=False)", "DOM-37"),
         M("JSON body escapes & without escaping the escape", BS, "kwarg_string = 'json={}'.format(json.dumps(kwargs, cls=MpfJSONEncoder))", "kwarg_string = 'json={}'.format(json.dumps(kwargs, cls=MpfJSONEncoder).replace('&', '%26'))", "DOM-37"),
     ]
